@@ -353,9 +353,11 @@ def guards_via_helper(body, facts, gname):
                 continue
             for sw in switches_on_call(body, b):
                 out.append((sw, "%s in helper %s" % (desc, c.split("::", 1)[1]), t.get("ln")))
+                VIA_HELPER[(body.id, sw)] = (b, c)
     return out
 
 
+VIA_HELPER = {}  # (function, switch block) -> (call block, helper): the guard sits inside the helper called at that block
 ALL = None
 # row: function id candidates, {guard: (min instances, effects-or-ALL)}, extra effect calls, properties
 ROWS = [
@@ -452,6 +454,24 @@ def run_row(facts, rep, row, short_override=None):
         uniq = {}
         for (sw, desc, site) in found:
             uniq.setdefault(sw, (desc, site))
+        # a helper that contains BOTH the guard and effects (`commit_locked(..)?`): for the effects inside it the guard
+        # is judged inside the helper; the branch on the helper's result only guards what follows the call
+        inside = {}
+        for sw in list(uniq):
+            via = VIA_HELPER.get((body.id, sw))
+            if via is None:
+                continue
+            (cb, hid) = via
+            if any(b == cb for (_n, b, _i, _s) in effects) and not short_override:
+                inside[sw] = cb
+                if (gname, hid) not in inside:
+                    inside[(gname, hid)] = True
+                    sub = dict(row)
+                    sub["fn"] = hid
+                    sub["guards"] = {gname: (1, subset)}
+                    sub["min_effects"] = 1
+                    f2, e2, g2 = run_row(facts, rep, sub, short + " via " + hid.split("::")[-1])
+                    n_guard += g2
         if len(uniq) < minc:
             n_guard += minc - len(uniq)  # a removed guard is a violation, not a reason for the floor to fail
             rep.violation(
@@ -461,9 +481,11 @@ def run_row(facts, rep, row, short_override=None):
                 "refusal guard `%s` not found in %s (expected %d, found %d): the check was removed or no longer branches" % (gname, row["fn"], minc, len(uniq)),
                 site=body.span,
             )
-        for sw, (desc, site) in sorted(uniq.items()):
+        for sw, (desc, site) in sorted((k, v) for (k, v) in uniq.items() if not isinstance(k, tuple)):
             n_guard += 1
-            my_effects = [(n, b, i, s) for (n, b, i, s) in effects if subset is ALL or n in subset]
+            my_effects = [(n, b, i, s) for (n, b, i, s) in effects if (subset is ALL or n in subset) and b != inside.get(sw, -1)]
+            if sw in inside and not my_effects:
+                continue  # everything this guard protects happens inside the helper, where it was judged
             succs = body.succ(sw)
             # refusal edge: successor from which no protected effect is reachable
             reach_eff = {}
